@@ -900,6 +900,10 @@ RunCb(s) ==
          IF failed THEN s1
          ELSE [Reply(s1, cb.cid, cb.mid, "ok", 0) EXCEPT !.lastobs = ObsCore(s1)]
     [] cb.kind = "dsig" ->    \* SysHandler: controller.dispatch((None, make_json("quit")))
+         IF ~Dev_QuitRefusedWhenBusy /\ s0.restarting
+         THEN \* repaired: the arbiter is going down to be started again; it now stays down (circusd reads the flag)
+              [s0 EXCEPT !.restarting = FALSE, !.cbpend = TRUE]
+         ELSE
          IF ~Dev_QuitRefusedWhenBusy /\ s0.slot # "" /\ ~s0.stopping
          THEN \* repaired: an operation is in flight, try again in 0.1 s (timer that re-queues this callback: f = -1)
               [s0 EXCEPT !.tm = @ \cup {[f |-> -1, due |-> s0.now + 1]}]
